@@ -97,3 +97,16 @@ def elems_in_range(arr, off, n, lo, hi):
 # jdist(s, u): the value the kernel returns for |A xor B| = s, |A or B| = u
 def jdist(s, u):
 	return z3.If(u == 0, i2f(z3.IntVal(0)), fdiv(i2f(s), i2f(u)))
+
+
+# ---- definitional axioms that contracts may ask for (added to the hypotheses of that function) -----
+uparr = z3.Function('uparr', IntArr, IntArr)   # bytes.upper as a function on whole arrays
+
+
+def _uparr_axiom():
+	a = z3.Const('a', IntArr)
+	j = z3.Int('j')
+	return z3.ForAll([a, j], z3.Select(uparr(a), j) == up(z3.Select(a, j)), patterns=[z3.Select(uparr(a), j)])
+
+
+AXIOMS = {'uparr': _uparr_axiom}
